@@ -106,3 +106,58 @@ func resultOfCall(names ...string) func(ssa.Value) bool {
 }
 
 var _ = token.ADD
+
+// variadicElems returns the elements of a variadic argument built in place
+// (`f(a, b)` for `f(xs ...T)`): go/ssa allocates an array, stores each element, slices it.
+func variadicElems(v ssa.Value) []ssa.Value {
+	sl, ok := v.(*ssa.Slice)
+	if !ok {
+		return nil
+	}
+	arr, ok := sl.X.(*ssa.Alloc)
+	if !ok {
+		return nil
+	}
+	elems := map[int64]ssa.Value{}
+	max := int64(-1)
+	for _, u := range core.Uses(arr) {
+		ia, ok := u.(*ssa.IndexAddr)
+		if !ok {
+			continue
+		}
+		idx, ok := core.ConstInt(ia.Index)
+		if !ok {
+			return nil
+		}
+		for _, uu := range core.Uses(ia) {
+			if st, ok := uu.(*ssa.Store); ok && st.Addr == ssa.Value(ia) {
+				elems[idx] = st.Val
+				if idx > max {
+					max = idx
+				}
+			}
+		}
+	}
+	out := make([]ssa.Value, max+1)
+	for i := range out {
+		out[i] = elems[int64(i)]
+	}
+	return out
+}
+
+// callChain: v == fN(...f1(x)) for the named single-argument (or receiver-only) callees,
+// outermost first; returns x.
+func callChain(v ssa.Value, names ...string) (ssa.Value, bool) {
+	for _, n := range names {
+		c, _ := core.CallOf(v)
+		if c == nil || !core.IsCallTo(c, n) {
+			return nil, false
+		}
+		args := core.CallArgs(&c.Call)
+		if len(args) == 0 {
+			return nil, false
+		}
+		v = args[0]
+	}
+	return v, true
+}
